@@ -18,7 +18,7 @@ variable {α : Type}
 /-! ## Closure properties of `SStep` / `SReach` -/
 
 /-- `Inv` of any storage already implies the sanity condition on the constants. -/
-theorem Inv.toCfgOk {cfg : Cfg} {s : Storage α} (h : Inv cfg s) : CfgOk cfg :=
+theorem Inv.cfgOkW {cfg : Cfg} {s : Storage α} (h : Inv cfg s) : CfgOk cfg :=
   ⟨Nat.le_trans h.archVer.1 h.archVer.2⟩
 
 theorem Inv.len_le_maxCap {cfg : Cfg} {s : Storage α} (h : Inv cfg s) : s.len ≤ cfg.maxCap :=
@@ -85,7 +85,7 @@ theorem SStep.spec {cfg : Cfg} {s s' : Storage α} (hi : Inv cfg s) (h : SStep c
   | push _ g row e hg hp =>
     by_cases hlt : s.len < cfg.maxCap
     · obtain ⟨e', s1, h1, h2, _, h4, _, _, _, _, _, h10, _⟩ :=
-        push_ok cfg g s row hi hi.toCfgOk hg hlt
+        push_ok cfg g s row hi hi.cfgOkW hg hlt
       rw [h1] at hp; cases hp
       refine ⟨h2, h4, ?_⟩
       rw [h10, length_zipWith_push]; exact Nat.min_le_left _ _
@@ -330,7 +330,7 @@ theorem World.withCapacity_panics (cfg : Cfg) (ids ncols caps : List Nat)
 archetype-level call `A::…`) names an archetype that exists in the world.  This is a guarantee
 of the Rust type system (there is no type `A` otherwise); the model, which uses numbers for
 archetypes, answers `.ub "no such archetype"` without it.  Untyped (dynamic) uses are
-unconstrained: every word pattern is admitted. -/
+unconstrained: every word pattern is allowed. -/
 def KeyUse.Scoped (n : Nat) (u : KeyUse) : Prop := u.typed = true → u.at_.getD u.h.a < n
 
 theorem KeyUse.scoped_of_untyped {n : Nat} {u : KeyUse} (h : u.typed = false) : u.Scoped n := by
